@@ -276,8 +276,84 @@ type gate struct {
 	lastAct  atomic.Int64
 	mu       sync.Mutex
 	guard    *rbGuard
+	cancelCaller func() // cancels the context the victim's Commit runs under (fault "cancelresp")
 	osMu         sync.Mutex
 	oneShotAfter map[string]func()
+	// C06: schedule rules "hold a request of command cmd naming key until a request of command until naming the same key
+	// was answered by the store (at most maxMs)" — reorders requests, never loses one
+	holdMu  sync.Mutex
+	holds   []*holdRule
+	served  map[string]map[string]int // cmd -> key(hex) -> answered requests
+}
+
+type holdRule struct {
+	cmd, key, until string
+	maxMs           int
+	used            bool
+}
+
+// holdIfAsked blocks the request while a matching hold rule says so
+func (g *gate) holdIfAsked(req *tikvrpc.Request, f map[string]interface{}) {
+	g.holdMu.Lock()
+	var r *holdRule
+	if len(g.holds) > 0 {
+		ks, _ := f["keys"].([]string)
+		for _, h := range g.holds {
+			if h.used || h.cmd != req.Type.String() {
+				continue
+			}
+			for _, k := range ks {
+				if k == h.key {
+					r = h
+				}
+			}
+			if r != nil {
+				break
+			}
+		}
+	}
+	if r == nil {
+		g.holdMu.Unlock()
+		return
+	}
+	r.used = true
+	base := g.served[r.until][r.key]
+	g.holdMu.Unlock()
+	g.inflight.Add(1)
+	deadline := time.Now().Add(time.Duration(r.maxMs) * time.Millisecond)
+	released := false
+	for time.Now().Before(deadline) {
+		g.holdMu.Lock()
+		n := g.served[r.until][r.key]
+		g.holdMu.Unlock()
+		if n > base {
+			released = true
+			break
+		}
+		time.Sleep(time.Millisecond)
+	}
+	g.trace.add(Event{Kind: "note", Client: g.id, F: map[string]interface{}{"helper": "hold", "cmd": r.cmd, "k": r.key, "until": r.until, "released_by_until": released}})
+	g.lastAct.Store(time.Now().UnixNano())
+	g.inflight.Add(-1)
+}
+
+func (g *gate) noteServed(req *tikvrpc.Request, f map[string]interface{}) {
+	g.holdMu.Lock()
+	defer g.holdMu.Unlock()
+	if len(g.holds) == 0 {
+		return
+	}
+	if g.served == nil {
+		g.served = map[string]map[string]int{}
+	}
+	cmd := req.Type.String()
+	if g.served[cmd] == nil {
+		g.served[cmd] = map[string]int{}
+	}
+	ks, _ := f["keys"].([]string)
+	for _, k := range ks {
+		g.served[cmd][k]++
+	}
 }
 
 func newGate(inner tikv.Client, id string, tr *Trace, reqSeq *atomic.Int64) *gate {
@@ -388,6 +464,7 @@ func (g *gate) SendRequest(ctx context.Context, addr string, req *tikvrpc.Reques
 		g.lastAct.Store(time.Now().UnixNano())
 		g.inflight.Add(-1)
 	}
+	g.holdIfAsked(req, f)
 	switch {
 	case act == "dropreq":
 		return nil, errors.New("verif gate: request lost (connection reset)")
@@ -416,6 +493,7 @@ func (g *gate) SendRequest(ctx context.Context, addr string, req *tikvrpc.Reques
 			}
 		}
 		resp, err = g.inner.SendRequest(ctx, addr, req, timeout)
+		g.noteServed(req, f)
 		if g.guard != nil {
 			g.guard.observe(req, resp, err)
 		}
@@ -459,6 +537,13 @@ func (g *gate) SendRequest(ctx context.Context, addr string, req *tikvrpc.Reques
 	}
 	if act == "dropresp" {
 		return nil, errors.New("verif gate: response lost (deadline exceeded)")
+	}
+	if act == "cancelresp" {
+		// the request was applied; the caller gives up (its context is cancelled) before the answer arrives
+		if g.cancelCaller != nil {
+			g.cancelCaller()
+		}
+		return nil, context.Canceled
 	}
 	g.mu.Lock()
 	if g.frozen.Load() {
